@@ -233,3 +233,41 @@ def render_case(case: t.Any) -> t.Any:
     except Exception as e:
         ty = f"<unrenderable spec: {e}>"
     return {'type': ty, 'value': short(v, 200), 'how': how}
+
+
+# ---- focused pools (regions of the type space where defects cluster; found by the seeded changes and the repaired defects) ----
+
+def overlap_union_specs() -> st.SearchStrategy[t.Any]:
+    """Untagged unions whose members overlap (same runtime type, parse-from-string scalars next to str, mixin enums next to their base)."""
+    from .props.c11 import FAMILIES
+    S = lambda n: ('s', n)  # noqa: E731
+    sc = st.sampled_from([S('int'), S('float'), S('str'), S('bool'), S('Fraction'), S('Decimal'), ('enum', 'SE'), ('enum', 'IE0'), ('enum', 'SE0')])
+    same_container = st.lists(sc, min_size=2, max_size=3, unique_by=repr).flatmap(lambda ms: st.sampled_from([
+        ('union', 'Union', tuple(('seq', 'List', m) for m in ms)),
+        ('union', 'Union', tuple(('map', 'Dict', S('str'), m) for m in ms)),
+        ('union', 'Union', tuple(('seq', 'TupleVar', m) for m in ms)),
+        ('union', 'Union', tuple(('seq', 'Set', m) for m in ms)),
+    ]))
+    fam = st.sampled_from(sorted(FAMILIES)).flatmap(
+        lambda f: st.lists(st.sampled_from(FAMILIES[f]), min_size=2, max_size=4, unique_by=repr)).map(lambda ms: ('union', 'Union', tuple(ms)))
+    union = st.one_of(same_container, fam, fam)
+    holder = union.map(lambda u: ('cls', {'fields': [{'name': 'x', 'type': u}, {'name': 'y', 'type': ('seq', 'List', u), 'default': ['factory', []]}], 'opts': {}}))
+    return st.one_of(union, union, holder, union.map(lambda u: ('seq', 'List', u)), union.map(lambda u: ('map', 'Dict', S('str'), u)))
+
+
+def hash_hostile_specs() -> st.SearchStrategy[t.Any]:
+    """Mappings / sets whose converted keys or elements may be unhashable or refuse to hash (Decimal('sNaN'), nested lists under Any)."""
+    S = lambda n: ('s', n)  # noqa: E731
+    k = st.sampled_from([S('Decimal'), S('float'), S('Fraction'), S('any'), ('tup', 'Tuple', (S('Decimal'), S('int'))), ('seq', 'TupleVar', S('Decimal')),
+                         ('seq', 'frozenset', S('Decimal')), ('union', 'Union', (S('Decimal'), S('str')))])
+    v = st.sampled_from([S('int'), S('any'), S('str')])
+    from . import npn
+    arrays = st.one_of(npn.nd_specs(), npn.nd_specs().map(lambda a: ('seq', 'List', a)), npn.nd_specs().map(lambda a: ('union', 'Union', (a, S('int')))),
+                       npn.nd_specs().map(lambda a: ('map', 'Dict', S('str'), a)))
+    return st.one_of(
+        arrays,
+        st.tuples(st.just('map'), st.sampled_from(['Dict', 'dict', 'Mapping', 'OrderedDict', 'DefaultDict']), k, v),
+        st.tuples(st.just('map'), st.just('Counter'), k),
+        st.tuples(st.just('seq'), st.sampled_from(['Set', 'FrozenSet', 'set', 'MutableSet']), k),
+        st.sampled_from([('seq', 'set_bare'), ('seq', 'frozenset_bare'), ('map', 'dict_bare'), ('map', 'Counter_bare')]),
+    )
